@@ -95,7 +95,7 @@ PROPS = {
                 known=["explicit_same_pkg", "unexported_foreign"]),
     "C11": dict(kind="gen", files=["P_C11.v", "Registry_Proofs.v"], theorems=[thm("C11_once", "P_C11"), thm("C11_sorted", "P_C11"), thm("C11_never_imports_destination", "P_C11"), thm("C11_keep_alias", "P_C11"), thm("C11_no_dot_blank", "P_C11"), thm("C11_vendor_example", "P_C11"), thm("C11_sync_when_methods", "P_C11"), thm("C11_distinct_refuted", "P_C11"), thm("C11_identifier_refuted", "P_C11")], oracle=O.o_c11,
                 known=["alias_duplicate", "alias_not_identifier", "walk_incomplete", "explicit_same_pkg"]),
-    "C12": dict(kind="gen", files=["P_C12.v", "P_C19.v"], theorems=[thm("C12_reserved_covers_keywords", "P_C12"), thm("C12_reserved_covers_basic_types", "P_C12"), thm("C12_suffix_escapes_table", "P_C12"), thm("C12_generated_not_reserved", "P_C12"), thm("C12_fresh", "P_C12"), thm("C12_number_two_fixed", "P_C12"), thm("C12_user_reserved_fixed", "P_C12"), thm("C12_user_reserved_refuted", "P_C12"), thm("C12_fields_refuted", "P_C12"), thm("C12_numbering_crash_fixed", "P_C12")], oracle=O.o_c12,
+    "C12": dict(kind="gen", files=["P_C12.v", "P_C19.v"], theorems=[thm("C12_reserved_covers_keywords", "P_C12"), thm("C12_reserved_covers_basic_types", "P_C12"), thm("C12_suffix_escapes_table", "P_C12"), thm("C12_generated_not_reserved", "P_C12"), thm("C12_fresh", "P_C12"), thm("C12_numbering_keeps_distinct", "P_C12"), thm("C12_add_var_keeps_distinct", "P_C12"), thm("C12_number_two_fixed", "P_C12"), thm("C12_user_reserved_fixed", "P_C12"), thm("C12_user_reserved_refuted", "P_C12"), thm("C12_fields_refuted", "P_C12"), thm("C12_numbering_crash_fixed", "P_C12")], oracle=O.o_c12,
                 known=["names_distinct", "fields_distinct", "names_body_idents", "names_keywords",
                        "names_shadow_types", "names_qualifiers", "names_tparams", "tparams_clash",
                        "mock_name_twice", "method_name_clash"]),
@@ -131,7 +131,7 @@ PROPS = {
                 theorems=[thm("C18_frame", "Cli_Proofs"), thm("C18_prefixes_only_created", "Cli_Proofs"),
                           thm("C18_no_out", "Cli_Proofs"), thm("C18_effect_alphabet", "Sites_Proofs"),
                           thm("pin_main_run", "Pin_main_run"), thm("pin_moq_new", "Pin_moq_new")]),
-    "C19": dict(kind="gen", files=["P_C19.v"], theorems=[thm("C19_numbering_terminates", "P_C19"), thm("C19_numbering_total", "P_C19"), thm("C19_numbering_never_out_of_fuel", "P_C19"), thm("C19_alias_diverges_refuted", "P_C19"), thm("C19_alias_diverges_at_add_import", "P_C19"), thm("C19_error_not_found", "P_C19"), thm("C19_error_not_interface", "P_C19"), thm("C19_error_no_arguments", "P_C19"), thm("C19_no_slice_panic", "P_C19"), thm("C19_variadic_slice_in_range", "P_C19")], oracle=O.o_c19, known=["alias_resolution_diverges"]),
+    "C19": dict(kind="gen", files=["P_C19.v"], theorems=[thm("C19_numbering_terminates", "P_C19"), thm("C19_numbering_total", "P_C19"), thm("C19_numbering_never_out_of_fuel", "P_C19"), thm("C19_alias_diverges_refuted", "P_C19"), thm("C19_alias_diverges_at_add_import", "P_C19"), thm("C19_error_not_found", "P_C19"), thm("C19_error_not_interface", "P_C19"), thm("C19_error_no_arguments", "P_C19"), thm("C19_no_slice_panic", "P_C19"), thm("C19_variadic_slice_in_range", "P_C19"), thm("C19_run_settled", "P_C19"), thm("C19_run_never_crashes", "P_C19")], oracle=O.o_c19, known=["alias_resolution_diverges"]),
     "C20": dict(kind="gen", files=["P_C20.v"], theorems=[thm("C20_parse_plain", "P_C20"), thm("C20_parse_alias", "P_C20"), thm("C20_count_order_names", "P_C20"), thm("C20_count", "P_C20"), thm("C20_method_types_independent", "P_C20")], oracle=O.o_c20, known=[]),
 }
 
